@@ -21,7 +21,7 @@ Lemma ob_credit_frame_length : credit_frame_length = true.
 Proof. vm_compute. reflexivity. Qed.
 Lemma ob_settings_validated : settings_validated = true.
 Proof. vm_compute. reflexivity. Qed.
-Lemma ob_cont_end_stream_from_frame : cont_end_stream_from_frame = true.
+Lemma ob_headers_priority_len : headers_priority_len = 5.
 Proof. vm_compute. reflexivity. Qed.
-Lemma ob_decoder_not_resized : table_size_resizes_decoder = false.
+Lemma ob_push_promise_meta_len : push_promise_meta_len = 4.
 Proof. vm_compute. reflexivity. Qed.
